@@ -295,8 +295,11 @@ def run_container(fam, kind, rng, rec, ci, arm, count):
                     None))
         ops.append(('ixor', lambda c: c.__ixor__(_OTHER[0]),
                     [toggled(oks[:i]) for i in range(len(oks) + 1)], None))
+        # (&= removes the non-survivors in place, in ascending order)
+        nons = [x for x in bl if x not in set(oks)]
         ops.append(('iand', lambda c: c.__iand__(_OTHER[0]),
-                    [bl, [x for x in bl if x in set(oks)]], None))
+                    [minus_set(set(nons[:i])) for i in range(len(nons) + 1)],
+                    None))
         ops.append(('ior-container', lambda c: c.__ior__(_OTHER[0]),
                     [sort_keys(list(set(bl) | set(oks[:i])))
                      for i in range(len(oks) + 1)], None))
@@ -555,13 +558,6 @@ def run_container(fam, kind, rng, rec, ci, arm, count):
                 del c
                 continue
             if not any(eq(got, a) for a in allowed):
-                if name == 'iand' and out == 'MemoryError':
-                    # F51: C '&=' clears the set and re-inserts the survivors;
-                    # an allocation failing in the re-insertion leaves the
-                    # set holding only the survivors inserted so far
-                    surv = allowed[-1]
-                    if len(got) < len(surv) and eq(got, surv[:len(got)]):
-                        d['finding'] = 'F51'
                 rec.violation('partial-change-after-allocation-failure',
                               observed=brief(got, 300),
                               allowed=brief(allowed[:3], 400), **d)
